@@ -1,5 +1,5 @@
 """C10 - a wire delays each packet by its drawn delay, keeps order, loses only by rate"""
-from . import netdev as N, resources as R, elements
+from . import netdev as N, resources as R, elements, deps
 
 def check(ctx):
     N.run_tables(ctx, 'C10', [('Wire', '__init__'), ('Wire', 'put'), ('Wire', 'run'), ('Cable', '__init__'),
@@ -7,6 +7,7 @@ def check(ctx):
     R.run_tables(ctx, 'C10', [('Store', '_do_put@unbounded'), ('Store', '_do_get')])
     elements.spawn_sites(ctx, 'C10', only=('Wire',))
     elements.class_method_sets(ctx, 'C10', only=('Wire', 'Cable'))
+    deps.element_layers(ctx, 'C10')
     return ('Static: Wire.put (entry instant stamped on every entry, one enqueue), Wire.run (loss decided first with one '
             'draw and only when a rate is set; kept packet: one delay draw, wait delay - queued time iff positive, one '
             'forward; lost packet: no wait, no forward), Cable (two wires with the same loss rate, crossed endpoints) '
